@@ -89,6 +89,28 @@ CONTRACTS.append(Contract(
         ('is-the-virtual-view', c.res == vfile(c, c.filename, c.created_files))],
     modifies=lambda c: BD_MEMO))
 
+# gone(d, v): "directory d was made by a build and is absent from the virtual view in virtual
+# state v" - the answer of BuildDirs' scan (trusted, bounded stand-in); a function of the virtual
+# state only, so two queries without an intervening change agree
+GONE = z3.Function('virtually_gone', StrS, z3.IntSort(), z3.BoolSort())
+
+
+def vdir(c, p, cf, st='old'):
+    """the statement's virtual "is a directory" """
+    g = c.gold if st == 'old' else c.gnew
+    rd = getattr(c, st)
+    base = And(g('fs_kind')[p] == K_DIR, Not(GONE(p, g('vstate'))))
+    if cf is None:
+        return base
+    o = OCF.val(cf)
+    return If(And(OCF.is_some(cf), rd(CF.D_, o)[p]), True,
+              If(And(OCF.is_some(cf), rd(CF.F_, o)[p]), False, base))
+
+
+def vexists(c, p, cf):
+    return Or(vfile(c, p, cf), vdir(c, p, cf))
+
+
 # "d is a directory recorded as created by the previous build, or created by this build": ghost
 # predicate; BuildDirs' memo sets only ever hold such directories (trusted invariant of BuildDirs,
 # bounded stand-in)
@@ -98,7 +120,8 @@ for _c in CONTRACTS:
     if _c.target.endswith('BuildDirs.is_removed_norm_case'):
         _old = _c.ensures
         _c.ensures = (lambda old: (lambda c: old(c) + [
-            ('gone-dirs-were-made-by-a-build', Implies(c.res, BUILD_MADE(c.norm_cased_dir)))]))(_old)
+            ('gone-dirs-were-made-by-a-build', Implies(c.res, BUILD_MADE(c.norm_cased_dir))),
+            ('is-the-scan-result', c.res == GONE(c.norm_cased_dir, c.gold('vstate')))]))(_old)
 
 
 def cf_says_dir(c, p, cf):
@@ -127,6 +150,7 @@ CONTRACTS.append(Contract(
          Implies(And(Not(c.res), c.gold('fs_kind')[c.filename] == K_DIR,
                      Not(cf_says_file(c, c.filename, c.created_files))),
                  BUILD_MADE(c.filename)), ['C03', 'C04']),
+        ('is-the-virtual-view', c.res == vdir(c, c.filename, c.created_files), ['C04', 'C05']),
     ],
     modifies=lambda c: BD_MEMO))
 
@@ -134,5 +158,229 @@ CONTRACTS.append(Contract(
     M + 'exists', props=['C04', 'C05'],
     params={'self': EX, 'filename': STR, 'created_files': CFO}, returns=BOOL,
     ensures=lambda c: no_effect(c) + [
-        ('a-virtual-file-exists', Implies(vfile(c, c.filename, c.created_files), c.res))],
+        ('is-file-or-dir-in-the-virtual-view', c.res == vexists(c, c.filename, c.created_files))],
     modifies=lambda c: BD_MEMO))
+
+
+# ===================================================================================================
+# comparison results (C13)
+fs_size = z3.Function('fs_size', StrS, z3.IntSort(), z3.IntSort())
+fs_mtime = z3.Function('fs_mtime', StrS, z3.IntSort(), z3.IntSort())
+HC = 'SimpleOperationExecutor._hash_cache'
+OHC = SH[HC].osort()
+HCT = SH[HC].args[1].sort()
+from pyvc.sorts import str_lit, KVs      # noqa: E402
+
+
+def metadata_value(c, p):
+    """{'size': st_size, 'timeNs': st_mtime_ns} of the file as it is now (sanitized: keys sorted)"""
+    ep = c.gold('fs_epoch')
+    return PyV.PDict(J.kput(str_lit('timeNs'), PyV.PInt(fs_mtime(p, ep)),
+                            J.kput(str_lit('size'), PyV.PInt(fs_size(p, ep)), KVs.knil)))
+
+
+CONTRACTS.append(Contract(
+    M + '_file_metadata', props=['C13'],
+    params={'self': EX, 'filename': STR}, returns=PYV, ret_fresh=True,
+    ensures=lambda c: no_effect(c) + [
+        ('size-and-mtime-of-the-file', c.res == metadata_value(c, c.filename)),
+        ('was-a-regular-file', c.gold('fs_kind')[c.filename] == K_FILE)],
+    raises=[ExcSpec('IsADirectoryError', ensures=lambda c: no_effect(c) + [
+        ('was-a-directory', c.gold('fs_kind')[c.filename] == K_DIR)]),
+            ExcSpec('FileNotFoundError', ensures=lambda c: no_effect(c) + [
+                ('was-absent', c.gold('fs_kind')[c.filename] == K_ABSENT)]),
+            ExcSpec('OtherOSError', ensures=no_effect)],
+    modifies=NOTHING))
+
+CONTRACTS.append(Contract(
+    M + '_file_hash', props=['C13'],
+    params={'self': EX, 'filename': STR}, returns=STR,
+    ensures=lambda c: no_effect(c) + [
+        ('was-a-regular-file', c.gold('fs_kind')[c.filename] == K_FILE),
+        ('memo-served-only-for-the-same-build-state', Or(
+            # freshly hashed: the memo now holds this value with the current built-flag
+            And(OHC.is_some(c.new(HC, c.self)[c.filename]),
+                HCT.t0(OHC.val(c.new(HC, c.self)[c.filename])) == c.res,
+                HCT.t1(OHC.val(c.new(HC, c.self)[c.filename])) == CA.OO.is_some(c.old(
+                    CA.NCF_, c.old('SimpleOperationExecutor._new_cache', c.self))[c.filename])),
+            # served from the memo: entry present, same built-flag, unchanged
+            And(OHC.is_some(c.old(HC, c.self)[c.filename]),
+                HCT.t0(OHC.val(c.old(HC, c.self)[c.filename])) == c.res,
+                HCT.t1(OHC.val(c.old(HC, c.self)[c.filename])) == CA.OO.is_some(c.old(
+                    CA.NCF_, c.old('SimpleOperationExecutor._new_cache', c.self))[c.filename]),
+                c.new(HC, c.self) == c.old(HC, c.self))))],
+    raises=[ExcSpec('IsADirectoryError', ensures=lambda c: no_effect(c) + [
+        ('was-a-directory', c.gold('fs_kind')[c.filename] == K_DIR)]),
+            ExcSpec('FileNotFoundError', ensures=lambda c: no_effect(c) + [
+                ('was-absent', c.gold('fs_kind')[c.filename] == K_ABSENT)]),
+            ExcSpec('OtherOSError', ensures=no_effect)],
+    modifies=lambda c: [(HC, c.self)],
+    loops={0: LoopSpec(modifies=NOTHING,
+                       inv=lambda c: [('no-fs-effect', c.gnew('eff') == c.gentry('eff')),
+                                      ('no-callback', c.gnew('ncalls') == c.gentry('ncalls')),
+                                      ('fs-unchanged', c.gnew('fs_kind') == c.gentry('fs_kind')),
+                                      ('memo-unchanged', c.new(HC, c.self) == c.entry(HC, c.self))
+                                      ])},
+))
+
+CONTRACTS.append(Contract(
+    M + 'file_comparison_result', props=['C13'],
+    params={'self': EX, 'filename': STR, 'file_comparison_name': STR}, returns=PYV,
+    ensures=lambda c: no_effect(c) + [
+        ('not-None', Not(J.is_none(c.res))), ('json', J.sanitized(c.res)),
+        ('was-a-file', c.gold('fs_kind')[c.filename] == K_FILE),
+        ('metadata-mode-is-size-and-mtime', Implies(
+            c.file_comparison_name == str_lit('METADATA'),
+            c.res == metadata_value(c, c.filename))),
+        ('hash-mode-is-a-string', Implies(c.file_comparison_name == str_lit('HASH'),
+                                          J.is_str(c.res)))],
+    raises=[ExcSpec('FileNotFoundError', ensures=lambda c: no_effect(c) + [
+        ('was-absent', c.gold('fs_kind')[c.filename] == K_ABSENT)]),
+            ExcSpec('IsADirectoryError', ensures=lambda c: no_effect(c) + [
+                ('was-a-directory', c.gold('fs_kind')[c.filename] == K_DIR)]),
+            ExcSpec('OtherOSError', ensures=no_effect),
+            ExcSpec('ValueError', when=lambda c: And(
+                c.file_comparison_name != str_lit('METADATA'),
+                c.file_comparison_name != str_lit('HASH')), ensures=no_effect)],
+    modifies=lambda c: [(HC, c.self)],
+    lemmas=['kput_sorted', 'kput_sanitized', 'STR_ORDER']))
+
+
+# ===================================================================================================
+# the remaining queries (C04.V5-V8, C05.E5)
+def unchanged_view(c):
+    return [('virtual-state-unchanged', c.gnew('vstate') == c.gold('vstate'))]
+
+
+CONTRACTS.append(Contract(
+    M + '_assert_exists', props=['C04'],
+    params={'self': EX, 'filename': STR, 'created_files': CFO},
+    ensures=lambda c: no_effect(c) + unchanged_view(c),
+    raises=[ExcSpec('FileNotFoundError',
+                    when=lambda c: Not(vexists(c, c.filename, c.created_files)),
+                    ensures=lambda c: no_effect(c) + unchanged_view(c))],
+    modifies=lambda c: BD_MEMO))
+CONTRACTS.append(Contract(
+    M + '_assert_is_dir', props=['C04'],
+    params={'self': EX, 'filename': STR, 'created_files': CFO},
+    ensures=lambda c: no_effect(c) + unchanged_view(c),
+    raises=[ExcSpec('NotADirectoryError',
+                    when=lambda c: And(Not(vdir(c, c.filename, c.created_files)),
+                                       vfile(c, c.filename, c.created_files)),
+                    ensures=lambda c: no_effect(c) + unchanged_view(c)),
+            ExcSpec('FileNotFoundError',
+                    when=lambda c: Not(vexists(c, c.filename, c.created_files)),
+                    ensures=lambda c: no_effect(c) + unchanged_view(c))],
+    modifies=lambda c: BD_MEMO))
+
+CONTRACTS.append(Contract(
+    M + 'read', props=['C04', 'C13', 'C05'],
+    params={'self': EX, 'filename': STR, 'file_comparison_name': STR, 'created_files': CFO},
+    returns=PYV,
+    ensures=lambda c: no_effect(c) + [
+        ('only-virtual-files-can-be-read', vfile(c, c.filename, c.created_files), ['C04']),
+        ('comparison-result', And(Not(J.is_none(c.res)), J.sanitized(c.res)), ['C13'])],
+    raises=[
+        ExcSpec('IsADirectoryError', ensures=lambda c: no_effect(c) + [
+            ('only-for-virtual-directories', Implies(
+                OCF.is_none(c.created_files), vdir(c, c.filename, c.created_files)), ['C04'])]),
+        ExcSpec('FileNotFoundError', ensures=lambda c: no_effect(c) + [
+            ('only-for-paths-absent-from-the-virtual-view', Implies(
+                OCF.is_none(c.created_files),
+                Not(vexists(c, c.filename, c.created_files))), ['C04'])]),
+        ExcSpec('OtherOSError', ensures=no_effect),
+        ExcSpec('ValueError', when=lambda c: And(
+            c.file_comparison_name != str_lit('METADATA'),
+            c.file_comparison_name != str_lit('HASH')), exact=False, ensures=no_effect)],
+    modifies=lambda c: BD_MEMO + [(HC, c.self)]))
+
+CONTRACTS.append(Contract(
+    M + 'get_size', props=['C04', 'C05'],
+    params={'self': EX, 'filename': STR, 'created_files': CFO}, returns=INT,
+    ensures=lambda c: no_effect(c) + [
+        ('only-existing-paths-have-a-size', vexists(c, c.filename, c.created_files))],
+    raises=[ExcSpec('FileNotFoundError', ensures=lambda c: no_effect(c) + [
+        ('only-for-paths-absent-from-the-virtual-view', Implies(
+            OCF.is_none(c.created_files),
+            Not(vexists(c, c.filename, c.created_files))), ['C04']),
+        # C05.E5: a path that exists only in the overlay of a replay must not need the real path
+        ('overlay-paths-do-not-need-the-real-file-system',
+         Not(Or(cf_says_dir(c, c.filename, c.created_files),
+                cf_says_file(c, c.filename, c.created_files))), ['C05'])]),
+        ExcSpec('OSError', ensures=no_effect)],
+    modifies=lambda c: BD_MEMO))
+
+# ---------------------------------------------------------------------------------------------------
+from pyvc.sorts import pjoin, basename, str_lt      # noqa: E402
+n_ = z3.Const('ex!n', StrS)
+ch_ = z3.Const('ex!c', StrS)
+i_, j_ = z3.Consts('ex!i ex!j', z3.IntSort())
+
+
+def sorted_list(l):
+    return ForAll([i_, j_], Implies(And(0 <= i_, i_ < j_, j_ < z3.Length(l)),
+                                    Or(str_lt(l[i_], l[j_]), l[i_] == l[j_])))
+
+
+CONTRACTS.append(Contract(
+    M + '_list_dir_superset', props=['C05', 'C04'],
+    params={'self': EX, 'dir_': STR, 'created_files': CFO}, returns=LIST(STR), ret_fresh=True,
+    ensures=lambda c: no_effect(c) + [
+        ('sorted', sorted_list(c.res), ['C05']),
+        ('contains-every-real-child', ForAll([ch_], Implies(
+            And(c.gold('fs_kind')[c.dir_] == K_DIR, dirname(ch_) == c.dir_, ch_ != c.dir_,
+                c.gold('fs_kind')[ch_] != K_ABSENT),
+            z3.Contains(c.res, z3.Unit(basename(ch_))))), ['C04'])],
+    raises=[
+        ExcSpec('FileNotFoundError', ensures=lambda c: no_effect(c) + [
+            ('was-absent', c.gold('fs_kind')[c.dir_] == K_ABSENT),
+            ('overlay-directories-do-not-need-the-real-file-system',
+             Not(cf_says_dir(c, c.dir_, c.created_files)), ['C05'])]),
+        ExcSpec('NotADirectoryError', ensures=lambda c: no_effect(c) + [
+            ('was-a-file', c.gold('fs_kind')[c.dir_] == K_FILE),
+            ('overlay-directories-do-not-need-the-real-file-system',
+             Not(cf_says_dir(c, c.dir_, c.created_files)), ['C05'])]),
+        ExcSpec('OtherOSError', ensures=no_effect)],
+    modifies=NOTHING,
+    local_types={'subfiles': LIST(STR), 'norm_cased_subfiles': SET(STR)},
+    loops={0: LoopSpec(modifies=NOTHING, inv=lambda c: [
+        ('no-fs-effect', c.gnew('eff') == c.gentry('eff')),
+        ('no-callback', c.gnew('ncalls') == c.gentry('ncalls')),
+        ('fs-unchanged', c.gnew('fs_kind') == c.gentry('fs_kind')),
+        ('real-children-kept', ForAll([ch_], Implies(
+            And(c.gnew('fs_kind')[c.dir_] == K_DIR, dirname(ch_) == c.dir_, ch_ != c.dir_,
+                c.gnew('fs_kind')[ch_] != K_ABSENT),
+            z3.Contains(c.v('subfiles'), z3.Unit(basename(ch_))))))])},
+    lemmas=['STR_ORDER']))
+
+CONTRACTS.append(Contract(
+    M + 'list_dir', props=['C04', 'C05'],
+    params={'self': EX, 'dir_': STR, 'created_files': CFO}, returns=LIST(STR), ret_fresh=True,
+    ensures=lambda c: no_effect(c) + unchanged_view(c) + [
+        ('only-directories-can-be-listed', vdir(c, c.dir_, c.created_files), ['C04']),
+        ('every-listed-name-exists', ForAll([n_], Implies(
+            z3.Contains(c.res, z3.Unit(n_)),
+            vexists(c, pjoin(c.dir_, n_), c.created_files))), ['C04']),
+    ],
+    raises=[
+        ExcSpec('NotADirectoryError', ensures=lambda c: no_effect(c) + [
+            ('only-for-virtual-files', Implies(OCF.is_none(c.created_files), And(
+                Not(vdir(c, c.dir_, c.created_files)), vfile(c, c.dir_, c.created_files))),
+             ['C04'])]),
+        ExcSpec('FileNotFoundError', ensures=lambda c: no_effect(c) + [
+            ('only-for-paths-absent-from-the-virtual-view', Implies(
+                OCF.is_none(c.created_files), Not(vexists(c, c.dir_, c.created_files))),
+             ['C04'])]),
+        ExcSpec('OtherOSError', ensures=no_effect)],
+    modifies=lambda c: BD_MEMO,
+    local_types={'subfiles': LIST(STR)},
+    loops={0: LoopSpec(modifies=lambda c: BD_MEMO, inv=lambda c: [
+        ('no-fs-effect', c.gnew('eff') == c.gentry('eff')),
+        ('no-callback', c.gnew('ncalls') == c.gentry('ncalls')),
+        ('fs-unchanged', c.gnew('fs_kind') == c.gentry('fs_kind')),
+        ('virtual-state-unchanged', c.gnew('vstate') == c.gentry('vstate')),
+        ('collected-exist', ForAll([n_], Implies(
+            z3.Contains(c.v('subfiles'), z3.Unit(n_)),
+            Or(vfile(c, pjoin(c.dir_, n_), c.created_files, 'new'),
+               vdir(c, pjoin(c.dir_, n_), c.created_files, 'new')))))])},
+))
